@@ -171,6 +171,22 @@ def lake_build(modules, timeout=3000):
     return ok, log, time.time() - t0
 
 
+def mathlib_context():
+    """every Mathlib module imported anywhere in the Lean project: imported by every audit, so that notations, delaborators and pp options
+    (`∀ x ∈ s`, `ℕ`, `p.1`, ...) are the same whichever property lists a theorem"""
+    mods = set()
+    for dp, _dn, fs in os.walk(os.path.join(LEAN, "Pff")):
+        for f in fs:
+            if f.endswith(".lean"):
+                for line in open(os.path.join(dp, f), encoding="utf-8", errors="replace"):
+                    m = re.match(r"import (Mathlib\.[\w\.]+)", line)
+                    if m:
+                        mods.add(m.group(1))
+                    elif line.strip() and not line.startswith(("import", "/-", "--", " ", "-/")) and "import" not in line:
+                        break
+    return ["import %s" % m for m in sorted(mods)]
+
+
 def lean_audit(prop_module, theorems, timeout=1200):
     """#print axioms + #check of every property theorem; returns dict name -> {axioms, statement}"""
     d = os.path.join(scratch(), "audit")
@@ -180,8 +196,8 @@ def lean_audit(prop_module, theorems, timeout=1200):
     # a fixed printing context: how a statement is pretty-printed depends on the notations and delaborators in scope (`∀ x ∈ s`, `ℕ`), i.e.
     # on what the audited modules happen to import; the two Mathlib modules that provide them are always imported, so that one theorem
     # listed by several properties is printed identically in all of them
-    lines = ["import Mathlib.Util.Delaborators", "import Mathlib.Data.Nat.Notation"] + ["import %s" % m for m in mods] + \
-            ["set_option pp.fieldNotation.generalized false", ""]
+    lines = ["import Mathlib.Util.Delaborators", "import Mathlib.Data.Nat.Notation", "import Mathlib.Data.Prod.Basic"] + \
+            mathlib_context() + ["import %s" % m for m in mods] + ["set_option pp.fieldNotation.generalized false", ""]
     for t in theorems:
         lines.append('#eval IO.println "@@THM %s"' % t)
         lines.append("#check @%s" % t)
